@@ -8,7 +8,17 @@ TRUST = ("TLC explores the bounded model exhaustively; the code is bound by exec
          "on the working tree through several concrete palettes and letting the TLA+ trace spec judge each observation. "
          "Trusted: TLC, the abstraction alpha (Python scalar ==, <, isnan, isnat), the stated bounds.")
 
+FRAME_TECH = "TLA+ spec (Frame/FrameOps/GroupOps) + TLC exhaustive enumeration of frames x arguments + monitor-style trace validation of real DataFrame calls"
 CHECKS = {
+ "C02": dict(engine="FrameOps",
+   text="FrameOpsMC enumerates every frame (two key columns + row id, <=3 rows) and every argument record (all masks, index vectors, n, key subsets, column=value pairs) and model-checks the constructive subset operators against independent declarative restatements; the enumerated cases are executed on the real DataFrame on random pairs of 17 dtype palettes (float with inf/-0.0/2^53, long/short/fixed-width/astral strings, dates, object...) and every result is judged by the FrameOpsTrace monitor through the row-id column.",
+   design="§3 C02", technique=FRAME_TECH),
+ "C03": dict(engine="FrameOps",
+   text="Same machine with Which=sort: all 1-2 key selections x directions; the observed row permutation is judged by the recursive SortOK predicate (permutation, lexicographic key order, NA block placement per tie group with the descending side free, stability) - never compared with a single expected order.",
+   design="§3 C03", technique=FRAME_TECH),
+ "C04": dict(engine="GroupOps",
+   text="GroupOps.tla: partition / one-row-per-key / ascending-NA-last / original-order predicates, model-checked against the constructive Groups operator; every frame x group-column tuple is executed through aggregate (row-id recording lambda), count, split, grouped modify and a shorthand-helper-vs-lambda pair and judged by the GroupOpsTrace monitor.",
+   design="§3 C04", technique=FRAME_TECH),
  "C11": dict(engine="VectorOps",
    text="Bounded model checking of the layer-1 sort/rank/unique operators (VectorOps.tla) over every cell sequence in the bound, "
         "plus conformance: every enumerated sequence is run through the real Vector.sort/rank/unique on 16 dtype palettes and each "
@@ -16,6 +26,8 @@ CHECKS = {
    design="§3 C11", technique="TLA+ spec (VectorOps) + TLC exhaustive enumeration + monitor-style trace validation of real calls"),
 }
 ENGINES = [
+ dict(name="FrameOps", path="spec/FrameOps.tla", serves_properties=["C02", "C03"], kind_free_text="TLA+ Frame/FrameOps operators + FrameOpsMC generator + FrameOpsTrace monitor (TLC)"),
+ dict(name="GroupOps", path="spec/GroupOps.tla", serves_properties=["C04"], kind_free_text="TLA+ GroupOps predicates + FrameOpsMC(Which=group) + GroupOpsTrace monitor (TLC)"),
  dict(name="VectorOps", path="spec/VectorOps.tla", serves_properties=["C11"], kind_free_text="TLA+ operators/predicates + VectorOpsMC generator + VectorOpsTrace monitor (TLC)"),
 ]
 PENDING_REASON = "check not built yet in this session (work in progress; the property will be claimed once its TLA+-based check passes on the unchanged tree)"
